@@ -368,9 +368,19 @@ func runC12(c *core.Ctx) {
 				o.Require(k == 1, "constant result %d, want 1 for the empty range set", k)
 				ok2 := g.GuardedBy(r, func(a core.Atom) bool {
 					cmp, isCmp := a.AsCmp()
-					return isCmp && cmp.Op == token.EQL && strings.Contains(core.ExprStr(cmp.L), "len(csr)")
+					if !isCmp || cmp.Op != token.EQL {
+						return false
+					}
+					// len(csr) == 0, or n == 0 with n := len(csr)
+					l := cmp.L
+					if id, isID := ast.Unparen(l).(*ast.Ident); isID {
+						if vc := valueCases(g, r, id, 1); len(vc) == 1 && vc[0].V != nil && vc[0].Expr != ast.Expr(id) {
+							l = vc[0].Expr
+						}
+					}
+					return strings.Contains(core.ExprStr(l), "len(csr)")
 				})
-				o.Require(ok2, "the constant result is not restricted to the empty range set")
+				o.Shape(ok2, "the constant result is not restricted to the empty range set")
 				continue
 			}
 			obj := core.ObjOf(info, rs.Results[0])
@@ -410,6 +420,12 @@ func runC12(c *core.Ctx) {
 					if k, isK := core.IntConst(info, as.Rhs[0]); isK && k >= 4 && as.Tok == token.DEFINE && !g.InLoop(g.MustVertexOf(as)) {
 						continue
 					}
+					if k, isK := core.IntConst(info, as.Rhs[0]); isK && k == 1 && as.Tok == token.DEFINE && !g.InLoop(g.MustVertexOf(as)) {
+						// the default for the empty set as the initial value; the first range must
+						// then replace it whatever its length (a guard "first iteration or shorter")
+						o.Unrec("%s: the running minimum starts at the default 1; whether the first range always replaces it is not decided", c.Prog.Pos(as.Pos()))
+						continue
+					}
 					o.FailAt(fn.Site(as, ""), "the result is assigned %s, which is not a range length", core.ExprStr(as.Rhs[0]))
 				}
 				// an update inside the loop must be guarded by a '<' comparison against the current minimum
@@ -425,13 +441,42 @@ func runC12(c *core.Ctx) {
 						}
 						return cmp.Op == token.GTR && core.ObjOf(info, cmp.L) == obj
 					})
-					o.Require(ok2, "the running minimum is updated without a 'shorter than' comparison")
+					wrong := g.GuardedBy(v, func(a core.Atom) bool {
+						cmp, isCmp := a.AsCmp()
+						if !isCmp {
+							return false
+						}
+						if (cmp.Op == token.GTR || cmp.Op == token.GEQ) && core.ObjOf(info, cmp.R) == obj {
+							return true
+						}
+						return (cmp.Op == token.LSS || cmp.Op == token.LEQ) && core.ObjOf(info, cmp.L) == obj
+					})
+					if wrong && !ok2 {
+						o.FailAt(fn.Site(as, ""), "the running value is replaced by a LONGER length: the result is not the shortest range length")
+					} else {
+						o.Shape(ok2, "the running minimum is updated without a 'shorter than' comparison that dominates the update")
+					}
 				}
 			}
 		}
 		// all ranges are considered: a loop over csr (or csr[1:])
 		heads := loopHeads(g)
-		o.Require(len(heads) == 1 && heads[0].Cond.Range != nil && strings.HasPrefix(core.ExprStr(heads[0].Cond.Range.X), "csr"), "minLength does not iterate over all ranges")
+		allRanges := len(heads) == 1 && heads[0].Cond.Range != nil && strings.HasPrefix(core.ExprStr(heads[0].Cond.Range.X), "csr")
+		if !allRanges && len(heads) == 1 && heads[0].Cond.Range == nil && heads[0].Cond.Expr != nil {
+			// for i := 0|1; i < len(csr) (or n := len(csr)); i++
+			if be, isBin := ast.Unparen(heads[0].Cond.Expr).(*ast.BinaryExpr); isBin && be.Op == token.LSS {
+				bound := be.Y
+				if id, isID := ast.Unparen(bound).(*ast.Ident); isID {
+					if vc := valueCases(g, heads[0], id, 1); len(vc) == 1 && vc[0].V != nil && vc[0].Expr != ast.Expr(id) {
+						bound = vc[0].Expr
+					}
+				}
+				if strings.ReplaceAll(core.ExprStr(bound), " ", "") == "len(csr)" {
+					allRanges = true
+				}
+			}
+		}
+		o.Shape(allRanges, "minLength does not iterate over all ranges in a form that is recognised (range csr, range csr[1:], or an index up to len(csr))")
 		// ... and the scan is not left before its end
 		if len(heads) == 1 {
 			head := heads[0]
